@@ -217,20 +217,32 @@ def run(repo: Repo, rep: Report, tier: str) -> None:
         else:
             rep.violation("R2.3", sub, f"{dg.fq}|loop-skip|{len(skips)}", "the property loop can skip a property", dg.loc(skips[0]))
         # required-ness: the variable(s) bound to `<key> in <schema>.required`
-        req = [n for n in ast.walk(loop) if isinstance(n, ast.Assign) and isinstance(n.targets[0], ast.Name) and any(
-            isinstance(x, ast.Attribute) and x.attr == "required" for x in ast.walk(n.value))]
-        okr = len(req) == 1 and (m0 := match("VAR_k in ANY_s.required", req[0].value)) is not None and DL.root(m0["VAR_k"]) == key
+        req = [n for n in ast.walk(loop) if isinstance(n, ast.Assign) and isinstance(n.targets[0], ast.Name) and isinstance(n.value, ast.Compare) and any(
+            isinstance(x, ast.Attribute) and x.attr == "required" for x in ast.walk(DL.inline(n.value, stop=(key or "",))))]
+        okr = len(req) == 1 and (m0 := match("VAR_k in ANY_s.required", DL.inline(req[0].value, stop=(key or "",)))) is not None and DL.root(m0["VAR_k"]) == key
         rvar = req[0].targets[0].id if req else None
         # the default expression = third component of the tuples appended to the list handed to render_dataclass(fields=...)
         dvars = set()
         for c in calls_in(loop):
-            if isinstance(c.func, ast.Attribute) and c.func.attr == "append" and c.args and isinstance(c.args[0], ast.Tuple) and len(c.args[0].elts) == 4 \
-                    and isinstance(c.args[0].elts[2], ast.Name):
-                dvars.add(c.args[0].elts[2].id)
-        defaults = [n for n in ast.walk(loop) if isinstance(n, ast.Assign) and isinstance(n.targets[0], ast.Name) and n.targets[0].id in dvars
+            rec = c.args[0] if isinstance(c.func, ast.Attribute) and c.func.attr == "append" and c.args else None
+            if isinstance(rec, ast.Name) and isinstance(DL.single(rec.id), ast.Tuple):
+                rec = DL.single(rec.id)  # the record bound to a local first
+            if isinstance(rec, ast.Tuple) and len(rec.elts) == 4 and isinstance(rec.elts[2], ast.Name):
+                dvars.add(rec.elts[2].id)
+        defaults = [n for n in ast.walk(loop) if isinstance(n, (ast.Assign, ast.AnnAssign)) and isinstance(n.targets[0] if isinstance(n, ast.Assign) else n.target, ast.Name)
+                    and (n.targets[0] if isinstance(n, ast.Assign) else n.target).id in dvars and n.value is not None
                     and not (isinstance(n.value, ast.Constant) and n.value.value is None)]
 
         def under_not_required(d: ast.AST) -> bool:
+            v = getattr(d, "value", None)
+            if isinstance(v, ast.IfExp):
+                # `None if <required> else <default>` / `<default> if not <required> else None`
+                t = v.test
+                if isinstance(t, ast.Name) and t.id == rvar and isinstance(v.body, ast.Constant) and v.body.value is None:
+                    return True
+                if isinstance(t, ast.UnaryOp) and isinstance(t.op, ast.Not) and isinstance(t.operand, ast.Name) and t.operand.id == rvar \
+                        and isinstance(v.orelse, ast.Constant) and v.orelse.value is None:
+                    return True
             child = d
             for a in _ancestors(d, loop):
                 if isinstance(a, ast.If):
